@@ -31,6 +31,7 @@ ASSUMPTIONS = [
     "cipher registration changes are made inside the shard process and restored",
 ]
 TIMEOUT = {"quick": 900, "thorough": 8 * 3600}
+OPTIMIZED_SHARDS = ("enc02", "fault01")  # these shards also run under python -O
 NSH = 16
 
 
